@@ -205,7 +205,7 @@ pub proof fn lemma_u64_text(n: u64)
         valid_utf8(encode_utf8(u64_text(n as int))), decode_utf8(encode_utf8(u64_text(n as int))) == u64_text(n as int),
         u64_text_value(u64_text(n as int)) == Some(n as int)
 {
-    axiom_u64_text(n);
+    lemma_u64_text_value(n);
     let t = u64_text(n as int);
     is_ascii_chars_encode_utf8(t); encode_utf8_valid_utf8(t); encode_utf8_decode_utf8(t);
     let ds = if t.len() > 0 && t[0] == '+' { t.skip(1) } else { t };
